@@ -599,7 +599,14 @@ def compare_static(ctx, P, P2, rho, numeric_as_real=False, tag=""):
         kinds = set()
         for k in set(i1) | set(i2):
             if i1.get(k, "undefined") != i2.get(k, "undefined"):
-                kinds.add("undefined-became-" + str(i2[k]) if k not in i1 else ("defined-became-undefined" if k not in i2 else "value"))
+                if k not in i1:
+                    kinds.add("undefined-became-" + str(i2[k]))
+                elif k not in i2:
+                    kinds.add("defined-became-undefined")
+                elif isinstance(i1[k], Fraction) and isinstance(i2[k], Fraction) and not isinstance(i1[k], bool) and abs(i1[k] - i2[k]) < Fraction(1, 10 ** 9):
+                    kinds.add("decimal-rounded")
+                else:
+                    kinds.add("value")
         diff = {str(k): (str(i1.get(k, "undefined")), str(i2.get(k, "undefined"))) for k in sorted(set(i1) | set(i2), key=str)
                 if i1.get(k, "undefined") != i2.get(k, "undefined")}
         ctx.fail(f"{tag}init-differs:{'+'.join(sorted(kinds))}",
